@@ -12,7 +12,7 @@ META = {
              "index->offset map (via C08's theorems, whose precondition min_data_len < 2^64 is discharged here); the outcome of every "
              "constructor is the same in both build modes and never an arithmetic-overflow panic; under Inv, checked indexing "
              "(NdLayout/DynLayout::offset behind get/get_mut/Index/IndexMut) returns exactly the true offset for valid indices and "
-             "None (or, DynLayout in debug builds only, an overflow panic) otherwise; permuting axes preserves Inv. Refutation witnesses "
+             "None (or, DynLayout in debug builds only, an overflow panic) otherwise; get_array/set_array offsets are in bounds; permuting axes, shrinking sizes and longer storage preserve Inv. Refutation witnesses "
              "are proved for the arithmetic of the unfixed tree (F4 family). The model is tied to the code by running both on the same "
              "inputs in release AND debug harness builds (exhaustive small scope + extreme usize values + seeded random) and comparing "
              "accept/reject/error kind/panic kind, resulting shape/strides and the offsets returned by get/Index for every probed index; "
@@ -23,6 +23,7 @@ META = {
     "technique": "Coq proof (induction over dimension lists, two arithmetic modes) + model/implementation correspondence in release and debug builds",
 }
 GROUP = "tensor"
+EXPECTED_UNSAFE_SITES = 11
 REQ = "From RV Require Import Prelude.\nFrom Tensor Require Import Overlap Layout.\nOpen Scope N_scope."
 THEOREMS = ["C06_try_from_data_exact", "C06_from_data_with_strides_exact", "C06_from_slice_with_strides_exact",
             "C06_from_storage_and_layout_exact", "C06_expanded_layout_exact",
@@ -52,6 +53,17 @@ def main(ctx):
                     "SmallVec, sort_unstable (see C08), Vec::with_capacity/capacity (the observed capacity is an input of the model)"]
     ctx.assumptions += ["usize is 64 bits", "storage length and capacity are < 2^64 (they are usize values)"]
     ctx.audit(GROUP)
+    # the unsafe element accesses whose safety comments are the proved promise (recorded, re-scanned every run)
+    try:
+        src = open(os.path.join(vf.REPO, "rten-tensor/src/tensor.rs")).read().split("\n")
+        sites = ["tensor.rs:%d: %s" % (i + 1, l.strip()[:90]) for i, l in enumerate(src)
+                 if "get_unchecked" in l and "fn get_unchecked" not in l and not l.strip().startswith("//")]
+        ctx.extra["unsafe_sites_relying_on_Inv"] = sites
+        if len(sites) != EXPECTED_UNSAFE_SITES:
+            ctx.notes.append("unsafe-site scan: %d get_unchecked uses in tensor.rs, %d when the proofs were written "
+                             "(a new site is not covered by a theorem until it is reviewed)" % (len(sites), EXPECTED_UNSAFE_SITES))
+    except OSError:
+        ctx.notes.append("unsafe-site scan: rten-tensor/src/tensor.rs not readable")
     failed = ctx.prove(GROUP, "Props_C06", THEOREMS) if THEOREMS else []
     agree = "agree_old" if os.environ.get("VERIF_C06_OLD") == "1" else "agree"
     n = ctx.n(600, 6000)
